@@ -318,7 +318,12 @@ func (e *c09env) rawOne(ctx context.Context, h host.Host, q *c09req, phase strin
 		}
 	}()
 	t0 := time.Now()
-	o := c09raw(ctx, h, e.srv, q.proto, q.raw, c09closeWrite)
+	mode := c09closeWrite
+	if q.seg > 0 {
+		mode = c09segmentedBase + c09rawMode(q.seg)
+		run.Count("raw/requests-sent-in-two-segments/"+q.proto, 1)
+	}
+	o := c09raw(ctx, h, e.srv, q.proto, q.raw, mode)
 	if d := time.Since(t0); d > 3*time.Second { // diagnostic only
 		e.slow(fmt.Sprintf("%s %s %s/%s -> %s took %s (phase %s)", q.proto, q.op, q.class, q.why, o.label(), d.Round(time.Millisecond), phase))
 	}
@@ -386,7 +391,7 @@ func (e *c09env) rawOne(ctx context.Context, h host.Host, q *c09req, phase strin
 		}
 		run.Count("retries", 1)
 		time.Sleep(time.Duration(20*(attempt+1)) * time.Millisecond)
-		o = c09raw(ctx, h, e.srv, q.proto, q.raw, c09closeWrite)
+		o = c09raw(ctx, h, e.srv, q.proto, q.raw, mode)
 	}
 }
 
@@ -1144,7 +1149,7 @@ func TestC09(t *testing.T) {
 	classify := func(qs []*c09req) []*c09req {
 		for i, q := range qs {
 			c := c09classify(q.proto, q.raw, e.byH)
-			c.op = q.op
+			c.op, c.seg = q.op, q.seg
 			qs[i] = c
 		}
 		return qs
@@ -1296,6 +1301,28 @@ func TestC09(t *testing.T) {
 		}
 	}
 	rawBatch("valid", 64, valid)
+
+	// ---- phase 2b: valid requests that reach the server in two segments (every split point of the
+	// identifier for a few requests of each type): served exactly like the same bytes in one write
+	{
+		var segd []*c09req
+		per := map[string]int{}
+		for _, q := range valid {
+			if per[q.proto] >= vkit.Scale(3, 12) {
+				continue
+			}
+			per[q.proto]++
+			for k := 1; k < len(q.raw); k++ {
+				if len(q.raw) > 16 && k%3 != per[q.proto]%3 { // long identifiers: every third split point
+					continue
+				}
+				cp := *q
+				cp.seg, cp.op, cp.why = k, "valid-segmented", "valid-in-two-segments"
+				segd = append(segd, &cp)
+			}
+		}
+		rawBatch("segmented", 32, segd)
+	}
 
 	// ---- phase 3: fields at and beyond their bounds, heights, lengths
 	var bounds []*c09req
